@@ -743,8 +743,12 @@ def _gen_c12(rng):
                 ops.append({"op": "transfer", "ids": closed, "fail": fails})
             elif kind == "status":
                 ops.append({"op": "status", "on": "dest", "ids": closed, "shallow": True})
+                if rng.random() < 0.3:
+                    ops[-1]["idx_fault"] = True  # the index cannot be written while this query runs
             elif kind == "compare":
                 ops.append({"op": "compare", "ids": closed, "shallow": True, "check_deleted": True})
+                if rng.random() < 0.3:
+                    ops[-1]["idx_fault"] = True
             else:
                 ops.append({"op": "ext_delete", "labels": rng.sample(closed, rng.randint(1, min(3, len(closed))))})
     sc.update(src=sorted(src), dest=sorted(dest), ops=ops, corrupt={})
@@ -840,9 +844,11 @@ def _exec_c12(sc, ctx):
                     continue
                 q = m.expand(ids)
             rf = op.get("read_fault")
-            fired0 = seam.fired.get("read_fault", 0)
+            fired0 = seam.fired.get("read_fault", 0) + seam.fired.get("idx_clear_fault", 0)
             if rf:
                 seam.faults = [{"at": ("open_r",), "match": None, "nth": rf["nth"], "exc": rf["exc"], "name": "read_fault", "count": 1}]
+            if op.get("idx_fault"):
+                seam.faults = [{"at": ("idx_clear",), "match": None, "nth": 1, "exc": "SQLITE_FULL", "name": "idx_clear_fault", "count": 1}]
             try:
                 r = status(
                     odb,
@@ -857,6 +863,9 @@ def _exec_c12(sc, ctx):
                 if isinstance(exc, OSError) and seam.fired.get("read_fault", 0) > fired0:
                     # an object could not be read back: refusing to answer is fine, a wrong answer is not
                     ctx.probe("status_refused_after_read_error")
+                    continue
+                if seam.fired.get("idx_clear_fault", 0) + seam.fired.get("read_fault", 0) > fired0:
+                    ctx.probe("status_refused_after_index_write_error")
                     continue
                 ctx.violate("status-raised", type(exc).__name__, repr(exc))
                 continue
@@ -888,6 +897,9 @@ def _exec_c12(sc, ctx):
                     lp = set(run.listing_dest())
                 if any(o in m.children and o not in lp for o in ids):
                     continue
+            fired0 = seam.fired.get("idx_clear_fault", 0)
+            if op.get("idx_fault"):
+                seam.faults = [{"at": ("idx_clear",), "match": None, "nth": 1, "exc": "SQLITE_FULL", "name": "idx_clear_fault", "count": 1}]
             try:
                 r = compare_status(
                     run.src,
@@ -900,8 +912,13 @@ def _exec_c12(sc, ctx):
                     jobs=cfg["jobs"],
                 )
             except Exception as exc:  # noqa: BLE001
+                seam.faults = []
+                if seam.fired.get("idx_clear_fault", 0) > fired0:
+                    ctx.probe("status_refused_after_index_write_error")
+                    continue
                 ctx.violate("compare-raised", type(exc).__name__, repr(exc))
                 continue
+            seam.faults = []
             q = set(ids) if shallow else m.expand(ids)
             ok_, mis, new, dele = ({h.value for h in s} for s in r)
             if run.index is None:
